@@ -221,13 +221,14 @@ type named struct {
 	trie bool
 }
 
-// deep*: <= 3 blocks x <= 3 txs over 3 ops
+// deep*: <= 3 blocks x <= 3 txs over 3-4 ops
 func deepFamilies() []named {
 	return []named{
 		{"deep-acct", []op{
 			{Kind: "call", From: "C", To: "vault-deposit", Amt: "3c"},
 			{Kind: "call", From: "B", To: "vault-destruct:self", Amt: "1c"},
 			{Kind: "xfer", From: "C", To: "D", Amt: "all"},
+			{Kind: "tokcall", From: "C", Tok: "gen", To: "vault-deposit", Amt: "3c"},
 		}, true},
 		{"deep-conf", []op{
 			{Kind: "ain", From: "B", Tok: "coin", Dests: []dest{{"W1", 0, "80c"}}, Fee: "min"},
@@ -238,6 +239,7 @@ func deepFamilies() []named {
 			{Kind: "ain", From: "A", Tok: "iss", Dests: []dest{{"W2", 0, "10c"}}, Fee: "min"},
 			{Kind: "uspend", W: "W0", Tok: "iss", From: "B", Ring: 3, To: "C", Amt: "all", Fee: "min"},
 			{Kind: "call", From: "B", To: "issuer-issue", Amt: "0", Arg: "250c"},
+			{Kind: "tokcall", From: "A", Tok: "iss", To: "vault-destruct:self", Amt: "3c"},
 		}, true},
 		{"deep-mixed", []op{
 			{Kind: "uspend", W: "W0", Tok: "coin", Ring: 3, To: "A", Amt: "10c", Fee: "min"},
